@@ -80,7 +80,7 @@ def main():
     dst = os.path.join(ROOT, "benign", a.seed_id)
     os.makedirs(dst, exist_ok=True)
     for f in ("patch.diff", "demo.py", "notes.md"):
-        if os.path.exists(os.path.join(a.src, f)):
+        if os.path.exists(os.path.join(a.src, f)) and os.path.realpath(os.path.join(a.src, f)) != os.path.realpath(os.path.join(dst, f)):
             shutil.copyfile(os.path.join(a.src, f), os.path.join(dst, f))
     notes = open(os.path.join(a.src, "notes.md")).read() if os.path.exists(os.path.join(a.src, "notes.md")) else ""
     meta["needs_to_manifest"] = notes[:1500]
